@@ -140,20 +140,20 @@ def summ_default_mode(I, st, args, fid):
 
 
 def summ_i128_div_rounded(I, st, args, fid):
-    """(R) i128_div_rounded(x, y, m) = RoundSpec(m, x/y); domain: y != 0 and (y > 0 or x > i128::MIN)"""
+    """(R) i128_div_rounded(x, y, m) = RoundSpec(m, x/y); y == 0 panics (DivisionByZero); x == i128::MIN, y == -1 panics (division overflow)"""
     x, y, m = args
     sy = st.decide(y.p, [NEG, ZERO, POS])
     if sy == 1:
         raise PanicExc('DivisionByZero', {'fn': fid})
     N, D = x.p, y.p
     if sy == 0:
-        # the code negates both: -x overflows for x == i128::MIN
-        if st.in_range(x.p, -(2**127 - 1), 2**127 - 1) is not True:
+        if st.in_range(x.p, -(2**127 - 1), 2**127 - 1) is not True and 0 in st.sign(padd(y.p, pconst(1))):
             k = st.choose(2)
             if k == 1:
                 st.assume(padd(x.p, pconst(-(2**127)), -1), ZERO)
-                raise PanicExc('overflow', {'fn': fid, 'op': 'Neg', 'term': pfreeze(st.norm(pneg(x.p)))}, profile_dependent=True)
-            st.assume_in_range(x.p, -(2**127 - 1), 2**127 - 1)
+                st.assume(padd(y.p, pconst(1)), ZERO)
+                raise PanicExc('Overflow', {'fn': fid, 'op': 'Div', 'assert': 'Overflow'})
+            # otherwise: not (x == MIN and y == -1); keep both as they are (the quotient fits)
         N, D = pneg(N), pneg(D)
     p = rnd_atom(I, st, N, D, mode_key(I, m))
     return I.mk(st, 'i128', p)
@@ -295,3 +295,84 @@ def all_caller_summaries(db):
     s[CORE + 'i128_shifted_div_rounded'] = summ_wide_rounded('shifted')
     s[CORE + 'i128_mul_div_ten_pow_rounded'] = summ_wide_rounded('muldiv')
     return s
+
+
+def find_rnd(st, p):
+    """rounded terms Rnd[..](N/D) whose value equals polynomial p on this path: list of (N, D, mk)"""
+    from .harness import poly_eq
+    res = []
+    m = match_rnd(st, p)
+    if m is not None and m[0] == 1:
+        return [(m[1], m[2], m[3])]
+    for a, d in enumerate(st.atoms.desc):
+        if d[0] == 'rnd':
+            try:
+                if poly_eq(st, patom(a), p):
+                    res.append((pthaw(d[1]), pthaw(d[2]), d[3]))
+            except Infeasible:
+                pass
+    return res
+
+
+def value_is_rnd(st, p, En, Ed, mk='thread'):
+    """(ok, msg): polynomial p equals Rnd[mk](En/Ed) on this path (possibly through recorded equalities)"""
+    from .harness import poly_eq
+    c = find_rnd(st, p)
+    if not c:
+        return False, 'value %s is not a rounded term' % st.atoms.pstr(st.norm(p))
+    for N, D, k in c:
+        if k != mk:
+            continue
+        if st.sign(D) <= POS and st.sign(Ed) <= POS and poly_eq(st, pmul(N, Ed), pmul(En, D)):
+            return True, 'Rnd[%s](%s / %s)' % (k, st.atoms.pstr(N), st.atoms.pstr(D))
+        if st.sign(D) <= POS and st.sign(Ed) <= POS and sticky_equivalent(st, N, D, En, Ed):
+            return True, 'Rnd[%s](%s / %s) == Rnd(%s / %s) by the sticky-bit lemma' % (k, st.atoms.pstr(N), st.atoms.pstr(D), st.atoms.pstr(st.norm(En)), st.atoms.pstr(st.norm(Ed)))
+    N, D, k = c[0]
+    return False, 'rounds %s / %s under %s, expected %s / %s under %s' % (st.atoms.pstr(N), st.atoms.pstr(D), k, st.atoms.pstr(st.norm(En)), st.atoms.pstr(st.norm(Ed)), mk)
+
+
+def sticky_equivalent(st, N, D, En, Ed):
+    """LEMMA (trusted, proved by hand in DESIGN.md): for E even, E > 0, Y > 0 and integers Q, R with En = Q*Y + R, 0 <= R < Y:
+         RoundSpec(mode, (2*Q + [R != 0]) / (2*E)) = RoundSpec(mode, En / (Y*E))   for all eight modes
+    (both have floor quotient floor(Q/E); the remainders 2*rho + [R != 0] vs 2*E and rho + R/Y vs E compare identically for zero, below / at / above half).
+    This function checks the lemma's hypotheses on path `st` for N = 2*Q + e, D = 2*E, Ed = Y*E."""
+    from .harness import poly_eq
+    Dc = pis_const(st.norm(D))
+    if Dc is None or Dc <= 0 or Dc % 4 != 0:
+        return False
+    E = Dc // 2
+    Edn = st.norm(Ed)
+    if any(v % E for v in Edn.values()):
+        return False
+    Y = {m: v // E for m, v in Edn.items()}
+    if not st.sign(Y) <= POS:
+        return False
+    Nn = st.norm(N)
+    cands = []
+    c0 = Nn.get((), 0)
+    cands.append((pconst(c0 % 2), None))
+    for m in Nn:
+        if len(m) == 1 and Nn[m] == 1 and m[0] in st.atoms.cond:
+            cands.append((patom(m[0]), m[0]))
+    for e, atom in cands:
+        rest = padd(Nn, e, -1)
+        if any(v % 2 for v in rest.values()):
+            continue
+        Q = {m: v // 2 for m, v in rest.items()}
+        R = st.norm(padd(En, pmul(Q, Y), -1))
+        try:
+            if not (st.sign(R) <= NONNEG and st.sign(padd(R, Y, -1)) <= NEG):
+                continue
+            if atom is None:
+                ev = pis_const(e)
+                if ev == 0 and st.sign(R) == ZERO:
+                    return True
+                if ev == 1 and 0 not in st.sign(R):
+                    return True
+            else:
+                cnd = st.atoms.cond[atom]
+                if cnd[0] == 'sign' and cnd[2] == NONZERO and (poly_eq(st, cnd[1], R) or poly_eq(st, cnd[1], pneg(R))):
+                    return True
+        except Infeasible:
+            continue
+    return False
